@@ -253,8 +253,18 @@ def findLastIdx {α} (l : List α) (p : α → Bool) : Option Nat :=
 
 /-! ## agency.txt -/
 
-def agencyRequired : List Str := [[97, 103, 101, 110, 99, 121, 95, 110, 97, 109, 101], [97, 103, 101, 110, 99, 121, 95, 117, 114, 108],
-  [97, 103, 101, 110, 99, 121, 95, 116, 105, 109, 101, 122, 111, 110, 101]]   -- agency_name agency_url agency_timezone
+def c_agency_name : Str := [97, 103, 101, 110, 99, 121, 95, 110, 97, 109, 101]
+def c_agency_timezone : Str := [97, 103, 101, 110, 99, 121, 95, 116, 105, 109, 101, 122, 111, 110, 101]
+def c_agency_url : Str := [97, 103, 101, 110, 99, 121, 95, 117, 114, 108]
+def c_friday : Str := [102, 114, 105, 100, 97, 121]
+def c_monday : Str := [109, 111, 110, 100, 97, 121]
+def c_saturday : Str := [115, 97, 116, 117, 114, 100, 97, 121]
+def c_sunday : Str := [115, 117, 110, 100, 97, 121]
+def c_thursday : Str := [116, 104, 117, 114, 115, 100, 97, 121]
+def c_tuesday : Str := [116, 117, 101, 115, 100, 97, 121]
+def c_wednesday : Str := [119, 101, 100, 110, 101, 115, 100, 97, 121]
+
+def agencyRequired : List Str := [c_agency_name, c_agency_url, c_agency_timezone]
 
 def c_agency_id : Str := [97, 103, 101, 110, 99, 121, 95, 105, 100]
 def c_agency_lang : Str := [97, 103, 101, 110, 99, 121, 95, 108, 97, 110, 103]
@@ -354,10 +364,12 @@ def stopOfRow (env : Env) (hdr row : List Str) : Option (Stop × Str) :=
       wheelchairBoarding := Gen.Enums.parseWheelchairBoarding (optRead hdr row c_wheelchair_boarding),
       platformCode := optRead hdr row c_platform_code }, parentId)
 
-/-- does the walk from `p` along the parent links reach `target`? (fuel = number of stops: the
-    links set so far are acyclic, so every walk ends within that many steps) -/
+/-- does the walk from `p` along the parent links meet `target`? `false` only when the chain from
+    `p` ends within `fuel` steps without visiting `target`. (The links set so far are acyclic, so
+    with fuel = number of stops + 1 the chain always ends before the fuel does; Go's loop has no
+    fuel. That the two coincide is validated differentially on feeds with up to 2100 stops.) -/
 def reaches (parents : List (Option Nat)) (target : Nat) : Nat → Nat → Bool
-  | 0, _ => false
+  | 0, _ => true
   | fuel + 1, p =>
     if p = target then true
     else match parents.getD p none with
@@ -375,17 +387,20 @@ def linkParents (ids : List Str) (parentIds : List Str) : List (Option Nat) :=
       | some p => if reaches parents i (ids.length + 1) p then parents else parents.set i (some p))
     (List.replicate ids.length none)
 
+/-- one step of the inheritance pass: stop `i` takes its parent station's value if its own is unspecified -/
+def inheritStep (ss : List Stop) (i : Nat) : List Stop :=
+  match ss[i]? with
+  | none => ss
+  | some s =>
+    match s.parent.bind (fun p => ss[p]?) with
+    | some par =>
+      if par.type == Gen.Enums.StopType_Station && s.wheelchairBoarding == Gen.Enums.WheelchairBoarding_NotSpecified
+      then ss.set i { s with wheelchairBoarding := par.wheelchairBoarding } else ss
+    | none => ss
+
 /-- the wheelchair-boarding inheritance pass, in index order -/
 def inheritPass (stops : List Stop) : List Stop :=
-  (List.range stops.length).foldl (fun ss i =>
-    match ss[i]? with
-    | none => ss
-    | some s =>
-      match s.parent.bind (fun p => ss[p]?) with
-      | some par =>
-        if par.type == Gen.Enums.StopType_Station && s.wheelchairBoarding == Gen.Enums.WheelchairBoarding_NotSpecified
-        then ss.set i { s with wheelchairBoarding := par.wheelchairBoarding } else ss
-      | none => ss) stops
+  (List.range stops.length).foldl inheritStep stops
 
 def parseStops (env : Env) (f : Csv.File) : List Stop :=
   if missingCols f.header [c_stop_id] ≠ [] then []
@@ -422,8 +437,7 @@ def parseTransfers (f : Csv.File) (stops : List Stop) : List Transfer :=
 def c_start_date : Str := [115, 116, 97, 114, 116, 95, 100, 97, 116, 101]
 def c_end_date : Str := [101, 110, 100, 95, 100, 97, 116, 101]
 def c_service_id : Str := [115, 101, 114, 118, 105, 99, 101, 95, 105, 100]
-def c_days : List Str := [[109, 111, 110, 100, 97, 121], [116, 117, 101, 115, 100, 97, 121], [119, 101, 100, 110, 101, 115, 100, 97, 121],
-  [116, 104, 117, 114, 115, 100, 97, 121], [102, 114, 105, 100, 97, 121], [115, 97, 116, 117, 114, 100, 97, 121], [115, 117, 110, 100, 97, 121]]
+def c_days : List Str := [c_monday, c_tuesday, c_wednesday, c_thursday, c_friday, c_saturday, c_sunday]
 def c_date : Str := [100, 97, 116, 101]
 def c_exception_type : Str := [101, 120, 99, 101, 112, 116, 105, 111, 110, 95, 116, 121, 112, 101]
 
@@ -648,6 +662,20 @@ def action (env : Env) (name : Str) (f : Csv.File) (st : St) : St :=
 def postProcess (name : Str) (st : St) : St :=
   if name == f_calendar_dates then { st with res := { st.res with services := st.res.services ++ servicesOf st.services } } else st
 
+/-- the required columns of a table entry (the row loop only runs when the header has them all) -/
+def requiredOf (name : Str) : List Str :=
+  if name == f_agency then agencyRequired
+  else if name == f_routes then routeRequired
+  else if name == f_stops then [c_stop_id]
+  else if name == f_transfers then [c_from_stop_id, c_to_stop_id]
+  else if name == f_calendar then calendarRequired
+  else if name == f_calendar_dates then calendarDatesRequired
+  else if name == f_shapes then shapeRequired
+  else if name == f_trips then tripRequired
+  else if name == f_frequencies then freqRequired
+  else if name == f_stop_times then stopTimeRequired
+  else []
+
 def runTable (env : Env) (members : List (Str × Str)) : List (Str × Bool) → St → Outcome
   | [], st => .ok st.res
   | (name, optional) :: rest, st =>
@@ -656,7 +684,11 @@ def runTable (env : Env) (members : List (Str × Str)) : List (Str × Bool) → 
     | some bytes =>
       match Csv.readFile bytes with
       | none => .error name
-      | some f => runTable env members rest (postProcess name (action env name f st))
+      | some f =>
+        -- rows are only read when no required column is missing; a reader error among them
+        -- surfaces when the file is closed
+        if missingCols f.header (requiredOf name) = [] && f.bodyError then .error name
+        else runTable env members rest (postProcess name (action env name f st))
 
 def utc : Str := [85, 84, 67]
 
